@@ -34,6 +34,8 @@ RULE = (
 ASSUMPTIONS = [
     "expected values / predicates come from vt/ref/filterspec.py, transcribed from the docstrings and the Python built-ins they cite",
     "truncate: length >= len(end) and leeway >= 0 (asserted preconditions of the filter); wordwrap width >= 1 and a wrapstring that does not occur in the text",
+    "wordwrap: paragraphs containing whitespace outside textwrap's ASCII set (NBSP, EM SPACE, U+001F ...) are discarded: textwrap breaks at ASCII whitespace only but strips with str.strip(), the outcome is not a documented contract",
+    "replace is additionally run in autoescape-on environments (plain and Markup values): same first-count-occurrences contract, plain replacement escaped inside a Markup value",
     "wordwrap: every output line must be a verbatim slice of its paragraph, only whitespace may disappear between lines, a line is only broken inside a word when the word is longer than the width (break_long_words) or next to a hyphen (break_on_hyphens)",
     "indent: whitespace-only lines and the empty pseudo-line after a trailing line break may or may not be indented (the docstring says 'blank'/'empty' without defining them); inputs ending in a lone carriage return are not generated (the appended newline merges with it)",
     "title: a character following punctuation may be either case (word boundaries other than whitespace are not documented); case filters use an alphabet where upper()/lower() are 1:1",
@@ -57,24 +59,24 @@ def _setup():
     return _state
 
 
-def _env(mode, leeway):
+def _env(mode, leeway, autoescape=False):
     st_ = _setup()
-    key = (mode, leeway)
+    key = (mode, leeway, autoescape)
     e = st_["env"].get(key)
     if e is None:
-        e = st_["jinja2"].Environment(enable_async=(mode == "async"))
+        e = st_["jinja2"].Environment(enable_async=(mode == "async"), autoescape=autoescape)
         if leeway is not None:
             e.policies["truncate.leeway"] = leeway
         st_["env"][key] = e
     return e
 
 
-def _template(mode, leeway, src):
+def _template(mode, leeway, src, autoescape=False):
     st_ = _setup()
-    key = (mode, leeway, src)
+    key = (mode, leeway, src, autoescape)
     t = st_["tpl"].get(key)
     if t is None:
-        t = st_["tpl"][key] = _env(mode, leeway).from_string(src)
+        t = st_["tpl"][key] = _env(mode, leeway, autoescape).from_string(src)
     return t
 
 
@@ -109,7 +111,10 @@ def check_case(case):
     leeway = case.get("policy_leeway")
     if name == "wordcount" and not fs.wordcount_defined(str(value)):
         raise core.Discard()
-    spec = _spec(case, value, args, kwargs)
+    try:
+        spec = _spec(case, value, args, kwargs)
+    except fs.Undecided:
+        raise core.Discard() from None
     src = _source(name, len(args), sorted(kwargs))
     tctx = {"a%d" % i: a for i, a in enumerate(args)}
     tctx.update({"k_" + k: v for k, v in kwargs.items()})
@@ -147,7 +152,41 @@ def check_case(case):
         loop.run_until_complete(main())
     finally:
         loop.close()
+    if name == "replace":
+        _replace_autoescape(value, args, kwargs, src, tctx)
     return _classify(case, name, value, args, kwargs, leeway)
+
+
+def _replace_autoescape(value, args, kwargs, src, tctx):
+    """replace is the one filter here whose code path depends on autoescaping: the same contract (first
+    `count` occurrences) holds there; inside a safe (Markup) value the plain replacement text is escaped."""
+    p = fs.bind("replace", args, kwargs)
+    safe = hasattr(value, "__html__")
+    spec = fs.spec_replace(str(value), {"old": p["old"], "new": fs.esc(p["new"]) if safe else p["new"], "count": p["count"]})
+
+    def judge(route, got):
+        msg = spec.check(got)
+        if msg is None and safe and not hasattr(got, "__html__"):
+            msg = "a safe value must stay safe, got plain %r" % (got,)
+        if msg:
+            raise core.Violation("autoescape on, %s: %r|replace(*%r, **%r): %s" % (route, value, args, kwargs, msg))
+
+    env = _env("sync", None, True)
+    judge("sync call_filter", env.call_filter("replace", value, list(args), dict(kwargs)))
+    box = []
+    _template("sync", None, src, True).render(dict(tctx, v=value, sink=box.append))
+    judge("sync template " + src, box[0])
+
+    async def main():
+        abox = []
+        await _template("async", None, src, True).render_async(dict(tctx, v=value, sink=abox.append))
+        judge("async template " + src, abox[0])
+
+    loop = asyncio.new_event_loop()
+    try:
+        loop.run_until_complete(main())
+    finally:
+        loop.close()
 
 
 def _classify(case, name, value, args, kwargs, leeway):
@@ -209,6 +248,14 @@ def _classify(case, name, value, args, kwargs, leeway):
         if near:
             labels.append("unit_boundary")
         nt = near or v >= base
+    elif name == "replace":
+        p = fs.bind(name, args, kwargs)
+        occ = str(value).count(str(p["old"])) if p["old"] != "" else 0
+        if p["count"] is not None and occ > p["count"]:
+            labels.append("count_limits")
+        if hasattr(value, "__html__"):
+            labels.append("replace_in_markup")
+        nt = occ > 0
     else:
         nt = bool(value) or value == 0
     return core.Outcome(nt, labels)
@@ -225,8 +272,11 @@ BREAKS = ["\n", "\n", "\r\n", "\r", "\n\n", "\x0b", "\x0c", "\x1c", "\x85", "\u2
 CASE_ALPHABET = "abcXYZ019 -_.,;:!?()[]{}<'\"/éÉüÜжЖλΛ\t\n"
 
 
-def _text(breaks=True, min_size=0, max_size=14):
-    pools = [st.sampled_from(WORDS), st.sampled_from(WORDS), st.sampled_from(SPACES), st.sampled_from(SPACES)]
+ASCII_SPACES = [" ", " ", " ", "  ", "   ", "\t", " \t "]
+
+
+def _text(breaks=True, min_size=0, max_size=14, spaces=SPACES):
+    pools = [st.sampled_from(WORDS), st.sampled_from(WORDS), st.sampled_from(spaces), st.sampled_from(spaces)]
     if breaks:
         pools.append(st.sampled_from(BREAKS))
     return st.lists(st.one_of(*pools), min_size=min_size, max_size=max_size).map("".join)
@@ -323,7 +373,8 @@ def _g_truncate(draw):
 
 @st.composite
 def _g_wordwrap(draw):
-    s = draw(_text(max_size=14))
+    # Unicode whitespace other than textwrap's ASCII set is declined by the spec: keep it rare here
+    s = draw(_text(max_size=14, spaces=ASCII_SPACES if draw(st.integers(0, 9)) else SPACES))
     given = {"width": draw(st.sampled_from([1, 2, 3, 4, 5, 6, 8, 10, 12, 15, 20, 30, 40]))}
     _opt(draw, given, "break_long_words", st.booleans())
     _opt(draw, given, "wrapstring", st.sampled_from([None, "\n", "<br>\n", "|~|", "\r\n"]))
@@ -392,7 +443,7 @@ def _g_replace(draw):
     given = {"old": old, "new": new}
     _opt(draw, given, "count", st.sampled_from([None, 0, 1, 2, 3, 100]))
     args, kwargs = _call_shape(draw, "replace", given)
-    value = s if draw(st.integers(0, 9)) else 121212
+    value = draw(st.sampled_from([s, s, s, s, {"$": "m", "v": s}, {"$": "m", "v": s}, 121212]))
     return {"filter": "replace", "value": value, "args": args, "kwargs": kwargs}
 
 
@@ -572,7 +623,7 @@ def floors(total, tier):
         return "filters generated fewer than 300 times: %s" % low
     for lab, need in (("truncated", 1000), ("at_limit", 500), ("long_word", 1000), ("hyphenated", 500), ("multiline", 1000),
                       ("num_nonfinite", 300), ("num_huge", 300), ("num_nonascii", 100), ("unit_boundary", 200), ("round_ceil", 300), ("round_floor", 300), ("round_common", 500), ("round_near_tie", 300),
-                      ("round_extreme", 100)):
+                      ("round_extreme", 100), ("count_limits", 300), ("replace_in_markup", 300)):
         if total.labels.get(lab, 0) < need:
             return "label %s below floor: %d < %d" % (lab, total.labels.get(lab, 0), need)
     return None
